@@ -174,7 +174,7 @@ func checkRest(env *chainkit.Env, bc *core.BlockChain, db aquadb.Database, t *ch
 // head H may be ahead of the block head B; B is an ancestor of (or equal to) H, heights up to H map to
 // H's ancestors, nothing is mapped above H, block data is complete up to B and transaction lookups
 // follow B.
-func checkMixed(env *chainkit.Env, bc *core.BlockChain, db aquadb.Database, t *chaintree.Tree, txs map[common.Hash][]txLoc, maxH uint64) []string {
+func checkMixed(env *chainkit.Env, bc *core.BlockChain, db aquadb.Database, t *chaintree.Tree, txs map[common.Hash][]txLoc, maxH uint64, delivered []bool) []string {
 	gen := env.Genesis.Hash()
 	H, B := bc.CurrentHeader(), bc.CurrentBlock()
 	hi, bi := t.Index(H.Hash(), gen), t.Index(B.Hash(), gen)
@@ -266,6 +266,7 @@ func runHistory(env *chainkit.Env, t *chaintree.Tree, txs map[common.Hash][]txLo
 			o.fails = append(o.fails, fmt.Sprintf("operation panicked (%s): %v", o.trace, x))
 		}
 	}()
+	delivered := make([]bool, len(t.Blocks))
 	for oi, op := range h.Ops {
 		switch {
 		case op.SetHead != nil:
@@ -280,7 +281,34 @@ func runHistory(env *chainkit.Env, t *chaintree.Tree, txs map[common.Hash][]txLo
 			for _, i := range op.Ins {
 				hs = append(hs, t.Blocks[i].Header())
 			}
+			tdOf := func(h common.Hash) *big.Int {
+				if i := t.Index(h, env.Genesis.Hash()); i >= 0 {
+					return t.TD[i]
+				}
+				return t.GenTD
+			}
+			before := tdOf(bc.CurrentHeader().Hash())
 			_, err := bc.InsertHeaderChain(hs, 1)
+			if err == nil {
+				for _, i := range op.Ins {
+					delivered[i] = true
+				}
+			}
+			// a header import never moves the header head (which the number index follows) to a lighter header,
+			// and moves it at least as high as the heaviest header it has just been given
+			after := tdOf(bc.CurrentHeader().Hash())
+			want := before
+			if err == nil {
+				for _, i := range op.Ins {
+					if t.TD[i].Cmp(want) > 0 {
+						want = t.TD[i]
+					}
+				}
+			}
+			if after.Cmp(want) < 0 {
+				o.fails = append(o.fails, fmt.Sprintf("op %d: after InsertHeaderChain%v the header head has TD %v; it had %v before and the heaviest header just delivered has %v (the number index follows a header that is not a heaviest one)", oi, op.Ins, after, before, want))
+				return o
+			}
 			if err != nil && !rewound && !mixed {
 				o.fails = append(o.fails, fmt.Sprintf("op %d: InsertHeaderChain rejected valid headers: %v", oi, err))
 				return o
@@ -292,6 +320,11 @@ func runHistory(env *chainkit.Env, t *chaintree.Tree, txs map[common.Hash][]txLo
 				bs = append(bs, t.Blocks[i])
 			}
 			_, err := bc.InsertChain(bs)
+			if err == nil {
+				for _, i := range op.Ins {
+					delivered[i] = true
+				}
+			}
 			if err != nil && !rewound && !mixed {
 				o.fails = append(o.fails, fmt.Sprintf("op %d: InsertChain rejected valid blocks: %v", oi, err))
 				return o
@@ -300,7 +333,7 @@ func runHistory(env *chainkit.Env, t *chaintree.Tree, txs map[common.Hash][]txLo
 		}
 		var f []string
 		if mixed {
-			f = checkMixed(env, bc, db, t, txs, maxH)
+			f = checkMixed(env, bc, db, t, txs, maxH, delivered)
 		} else {
 			f = checkRest(env, bc, db, t, txs, h.Headers, maxH)
 		}
@@ -531,7 +564,7 @@ outer:
 }
 
 func oracleOf(msg string) string {
-	for _, k := range []string{"operation panicked", "is not on the chain of the header head", "stale canonical entry", "above the head", "maps to", "not retrievable", "lookup does not resolve", "lookup points at", "in no canonical block", "rejected valid", "not a block of the tree", "SetHead("} {
+	for _, k := range []string{"operation panicked", "is not a heaviest one", "is not on the chain of the header head", "stale canonical entry", "above the head", "maps to", "not retrievable", "lookup does not resolve", "lookup points at", "in no canonical block", "rejected valid", "not a block of the tree", "SetHead("} {
 		if strings.Contains(msg, k) {
 			return strings.ReplaceAll(strings.Trim(k, "("), " ", "-")
 		}
